@@ -2,6 +2,7 @@ use crate::core::Cx;
 
 pub mod c06;
 pub mod c08;
+pub mod c12;
 pub mod c13;
 pub mod c14;
 pub mod c15;
@@ -13,6 +14,7 @@ pub fn run(id: &str, cx: &mut Cx) -> bool {
     match id {
         "C06" => c06::run(cx),
         "C08" => c08::run(cx),
+        "C12" => c12::run(cx),
         "C13" => c13::run(cx),
         "C14" => c14::run(cx),
         "C15" => c15::run(cx),
